@@ -49,10 +49,11 @@ Next == /\ ~done
                                         form |-> IF k % 3 = 0 THEN "stream" ELSE "table", variant |-> "plain",
                                         \* object numbers in document order, or running against it (a /Kids array need not ascend)
                                         reverse |-> (k % 4 >= 2)])>>)
-        \* a kid that points back at an ancestor, and a page listed twice
+        \* a kid that points back at an ancestor, a page listed twice in one /Kids, a page listed again at the end of the root's /Kids
         /\ \A k \in {j \in 1..Len(TS) : TS[j].n >= 3 /\ j % 7 = 0} :
              /\ PrintT(<<"REPLAY", ToJson([tree |-> TS[k], kidsIndirect |-> FALSE, countOff |-> 0, form |-> "table", variant |-> "cycle", reverse |-> FALSE])>>)
              /\ PrintT(<<"REPLAY", ToJson([tree |-> TS[k], kidsIndirect |-> FALSE, countOff |-> 0, form |-> "table", variant |-> "shared", reverse |-> FALSE])>>)
+             /\ PrintT(<<"REPLAY", ToJson([tree |-> TS[k], kidsIndirect |-> (k % 2 = 0), countOff |-> 0, form |-> "table", variant |-> "shared_up", reverse |-> FALSE])>>)
         /\ PrintT(<<"COUNT", ToJson([trees |-> Len(TS)])>>)
         /\ done' = TRUE
 Spec == Init /\ [][Next]_done
